@@ -251,6 +251,10 @@ class Repo:
                     src = f.read()
                 try:
                     tree = ast.parse(src, filename=path)
+                    if not os.environ.get("VERIF_SA_NO_CANON"):
+                        from .canon import canonicalise
+
+                        tree = canonicalise(tree)
                 except SyntaxError as e:  # pragma: no cover
                     raise AnalysisError(f"cannot parse {path}: {e}") from e
                 is_pkg = fn == "__init__.py"
@@ -920,11 +924,17 @@ def norm_dump(node: ast.AST, local: frozenset[str] = frozenset()) -> str:
         n.id for n in ast.walk(node) if isinstance(n, ast.Name) and isinstance(n.ctx, ast.Store)
     } | set(local)
     stored |= {n.arg for n in ast.walk(node) if isinstance(n, ast.arg)}
-    # deterministic first-use order = source order (ast.walk is breadth-first: sort by position)
-    names = sorted(
-        (n for n in ast.walk(node) if isinstance(n, (ast.Name, ast.arg))),
-        key=lambda n: (getattr(n, "lineno", 0), getattr(n, "col_offset", 0)),
-    )
+    # deterministic first-use order: depth-first pre-order of the (normalised) tree — not
+    # source positions, which the normal form of sa.canon does not preserve
+    names = []
+
+    def _pre(x):
+        if isinstance(x, (ast.Name, ast.arg)):
+            names.append(x)
+        for c in ast.iter_child_nodes(x):
+            _pre(c)
+
+    _pre(node)
     for n in names:
         if isinstance(n, ast.Name) and n.id in stored:
             n.id = ren.setdefault(n.id, f"v{len(ren)}")
